@@ -45,6 +45,9 @@ def run(check: Check, repo: Repo, tier: str) -> None:
     from rules import sdl_rules as D
 
     D.assume_valid_fresh(check, repo)
+    K.validator_no_early_return(check, repo)
+    G.independent_keys(check, [f for mn in ("execution.values", "utilities.coerce_input_value", "utilities.validate_input_value") for f in repo.mod(mn).functions()])
+    X.zip_align(check, repo, repo.package_modules("execution"))
     from rules import identity
     identity.check_id_pin(check, repo, [repo.mod("execution.executor"), repo.mod("pyutils.ref_map"), repo.mod("execution.collect_fields"),
                                         repo.mod("execution.values")])
